@@ -13,6 +13,7 @@ import CookModel.Lemmas.LooseComp
 import CookModel.Lemmas.LooseStep
 import CookModel.Lemmas.LooseFront
 import CookModel.Lemmas.TableFacts
+import CookModel.Lemmas.AdvQtyComment
 /-
   C17  Line endings, comments and blank space do not change the recipe.
 
@@ -2046,5 +2047,93 @@ example : SameRecipe (α := Rat) (fun c => c = ' ')
       have : (parseFrontmatter C17_toyEnv.cs (render ([] ++ docSpecF C17_exDocLC))).isNone = true := by decide
       simpa using this)
 -- ===== end w5c17body =====
+-- ===== w5advfix: defect F-C17-1 (block comment in front of the unit of an ADVANCED_UNITS quantity) =====
+
+/-- **Block comment between value and unit of an ADVANCED_UNITS quantity `value blank unit`** (clause 4b, quantities;
+    true of the code after the repair of defect F-C17-1).  The tokens between the braces are `H ++ F ++ U`:
+    `H` the optional scaling lock and the value (no word token, not only lock and blanks), `F` what stands between
+    value and unit, `U` the unit tokens, the first of which is a word; no `%` anywhere, the extension is on and the
+    value reads as a number or a range.  For ANY two fillers `F₁`, `F₂` made of blanks and block comments with at
+    least one blank each — `1 kg`, `1 [- c -]kg` (comment glued to the unit), `1[- c -] kg` (comment between value
+    and blank), `1 [- c -] kg`, several comments — `parse_quantity` gives the same quantity up to spans:
+    the same value with the same span and scaling lock, units with the same content (`ParsedQSim`: equal fragment
+    texts, hence equal `text()` / `text_trimmed()`; the unit tokens of the two inputs sit at different offsets,
+    `LRel TokSim`), a unit on both sides, no unit separator; the same events (errors of the value) are pushed and
+    extensions, character table, outer tokens and cursor are left alike.  Validity cannot differ: the pushed events
+    are equal.  Not compared: the span of the whole quantity (it covers the filler) and the panic flag (never set on
+    lexed tokens, C03).  Before the repair this was FALSE: see `C17_advanced_quantity_defect_before_repair`. -/
+theorem C17_advanced_quantity_comment_before_unit {α : Type} [Arith α] (s : BP α) (hu : UwsNL s.cs)
+    (hadv : s.ext.has Gen.EXT_ADVANCED_UNITS = true) (H F₁ F₂ U₁ U₂ : List Tok)
+    (hH : ∀ t ∈ H, t.kind ≠ .word) (hne : advValueToks H ≠ [])
+    (hF₁ : A17qFiller F₁) (hF₂ : A17qFiller F₂)
+    (hU : LRel TokSim U₁ U₂) (hw : ∃ w r, U₁ = w :: r ∧ w.kind = .word)
+    (hp : ∀ t ∈ H ++ U₁, t.kind ≠ .percent)
+    (hnum : (numOrRange (α := α) (s.ext.has Gen.EXT_RANGE_VALUES) (a17qTrim (advValueToks H))).isSome = true) :
+    ParsedQSim s.cs.uws (parseQuantity (H ++ (F₁ ++ U₁)) s).1 (parseQuantity (H ++ (F₂ ++ U₂)) s).1 ∧
+    (parseQuantity (H ++ (F₁ ++ U₁)) s).1.quantity.val.value = (parseQuantity (H ++ (F₂ ++ U₂)) s).1.quantity.val.value ∧
+    (parseQuantity (H ++ (F₁ ++ U₁)) s).1.quantity.val.unit.isSome = true ∧
+    (parseQuantity (H ++ (F₁ ++ U₁)) s).1.unitSep = none ∧ (parseQuantity (H ++ (F₂ ++ U₂)) s).1.unitSep = none ∧
+    (parseQuantity (H ++ (F₁ ++ U₁)) s).2.evs = (parseQuantity (H ++ (F₂ ++ U₂)) s).2.evs ∧
+    (parseQuantity (H ++ (F₁ ++ U₁)) s).2.ext = (parseQuantity (H ++ (F₂ ++ U₂)) s).2.ext ∧
+    (parseQuantity (H ++ (F₁ ++ U₁)) s).2.cs = (parseQuantity (H ++ (F₂ ++ U₂)) s).2.cs ∧
+    (parseQuantity (H ++ (F₁ ++ U₁)) s).2.toks = (parseQuantity (H ++ (F₂ ++ U₂)) s).2.toks ∧
+    (parseQuantity (H ++ (F₁ ++ U₁)) s).2.cur = (parseQuantity (H ++ (F₂ ++ U₂)) s).2.cur :=
+  a17q_parseQuantity_filler s hu hadv H F₁ F₂ U₁ U₂ hH hne hF₁ hF₂ hU hw hp hnum
+
+/-- the hypotheses on `1 kg` against `1 [- c -]kg` (the minimal input of the defect), all extensions on -/
+example :
+    ParsedQSim toyCharSpec.uws
+      (parseQuantity (α := Rat) a17qPlain ⟨[], 0, ⟨3818⟩, toyCharSpec, #[], none⟩).1
+      (parseQuantity (α := Rat) a17qGlued ⟨[], 0, ⟨3818⟩, toyCharSpec, #[], none⟩).1 :=
+  (C17_advanced_quantity_comment_before_unit (α := Rat) ⟨[], 0, ⟨3818⟩, toyCharSpec, #[], none⟩
+    ⟨by decide, by decide⟩ (by decide) [⟨.int, ['1'], 0⟩]
+    [⟨.ws, [' '], 1⟩] [⟨.ws, [' '], 1⟩, ⟨.blockComment, ['[', '-', ' ', 'c', ' ', '-', ']'], 2⟩]
+    [⟨.word, ['k', 'g'], 2⟩] [⟨.word, ['k', 'g'], 9⟩]
+    (by decide) (by decide)
+    ⟨by intro t ht; simp only [List.mem_cons, List.not_mem_nil, or_false] at ht; subst ht; simp, ⟨⟨.ws, [' '], 1⟩, by simp, rfl⟩⟩
+    ⟨by intro t ht; simp only [List.mem_cons, List.not_mem_nil, or_false] at ht; rcases ht with rfl | rfl <;> simp,
+      ⟨⟨.ws, [' '], 1⟩, by simp, rfl⟩⟩
+    (.cons ⟨rfl, fun _ => rfl, fun h => by cases h⟩ .nil) ⟨_, _, rfl, rfl⟩ (by decide) (a17q_num_one _)).1
+
+/-- the same with the comment between value and blank (`1[- c -] kg`) and on both sides of two blanks -/
+example : A17qFiller [⟨.blockComment, ['[', '-', ' ', 'c', ' ', '-', ']'], 1⟩, ⟨.ws, [' '], 8⟩] ∧
+    A17qFiller [⟨.ws, [' '], 1⟩, ⟨.blockComment, ['[', '-', ' ', 'c', ' ', '-', ']'], 2⟩, ⟨.ws, [' '], 9⟩] :=
+  ⟨⟨by intro t ht; simp only [List.mem_cons, List.not_mem_nil, or_false] at ht; rcases ht with rfl | rfl <;> simp,
+      ⟨⟨.ws, [' '], 8⟩, by simp, rfl⟩⟩,
+   ⟨by intro t ht; simp only [List.mem_cons, List.not_mem_nil, or_false] at ht; rcases ht with rfl | rfl | rfl <;> simp,
+      ⟨⟨.ws, [' '], 1⟩, by simp, rfl⟩⟩⟩
+
+/-- `C17_advanced_quantity_comment_before_unit` at the character table generated from the real lexer:
+    the side condition `UwsNL` is proved for that table (`Lemmas/TableFacts.lean`), not assumed -/
+theorem C17_advanced_quantity_comment_before_unit_real {α : Type} [Arith α] (s : BP α) (hcs : s.cs = realCharSpec)
+    (hadv : s.ext.has Gen.EXT_ADVANCED_UNITS = true) (H F₁ F₂ U₁ U₂ : List Tok)
+    (hH : ∀ t ∈ H, t.kind ≠ .word) (hne : advValueToks H ≠ [])
+    (hF₁ : A17qFiller F₁) (hF₂ : A17qFiller F₂)
+    (hU : LRel TokSim U₁ U₂) (hw : ∃ w r, U₁ = w :: r ∧ w.kind = .word)
+    (hp : ∀ t ∈ H ++ U₁, t.kind ≠ .percent)
+    (hnum : (numOrRange (α := α) (s.ext.has Gen.EXT_RANGE_VALUES) (a17qTrim (advValueToks H))).isSome = true) :
+    ParsedQSim realCharSpec.uws (parseQuantity (H ++ (F₁ ++ U₁)) s).1 (parseQuantity (H ++ (F₂ ++ U₂)) s).1 ∧
+    (parseQuantity (H ++ (F₁ ++ U₁)) s).1.quantity.val.value = (parseQuantity (H ++ (F₂ ++ U₂)) s).1.quantity.val.value ∧
+    (parseQuantity (H ++ (F₁ ++ U₁)) s).2.evs = (parseQuantity (H ++ (F₂ ++ U₂)) s).2.evs := by
+  have h := C17_advanced_quantity_comment_before_unit s (by rw [hcs]; exact C17_uwsNL_real) hadv H F₁ F₂ U₁ U₂
+    hH hne hF₁ hF₂ hU hw hp hnum
+  rw [hcs] at h
+  exact ⟨h.1, h.2.1, h.2.2.2.2.2.1⟩
+
+/-- **Defect F-C17-1, before the repair.**  `parseAdvancedQuantityOrig` is the model of `parse_advanced_quantity`
+    as it was (blank test on the very last value token).  On the tokens of `1 [- c -]kg` it DECLINES (`None`) — the
+    quantity then went through the regular reading and became the text value `"1 kg"` without unit: `~{1 [- c -]min}`
+    "missing unit", `@x{1 [- c -]kg}` a text — whatever the extensions and the character table, whereas on `1 kg`
+    the reading is a number with a unit: the comment changed the recipe and its validity.  The repaired function
+    (the current model, tied to the repaired code by the correspondence run) accepts both, and
+    `C17_advanced_quantity_comment_before_unit` shows the results agree. -/
+theorem C17_advanced_quantity_defect_before_repair {α : Type} [Arith α] (e : Ext) (cs : CharSpec) (evs : Array (Ev α)) :
+    (parseAdvancedQuantityOrig (α := α) ⟨a17qGlued, 0, e, cs, evs, none⟩).1 = none ∧
+    (parseAdvancedQuantity (α := α) ⟨a17qGlued, 0, e, cs, evs, none⟩).1.isSome = true ∧
+    (parseAdvancedQuantity (α := α) ⟨a17qPlain, 0, e, cs, evs, none⟩).1.isSome = true :=
+  ⟨a17q_orig_declines_glued e cs evs, a17q_new_accepts e cs evs⟩
+
+/-- the tokens of the statement are those of `1 kg` and `1 [- c -]kg` -/
+example : a17qPlain.flatMap (·.text) = "1 kg".toList ∧ a17qGlued.flatMap (·.text) = "1 [- c -]kg".toList := by decide
 
 end Cook
